@@ -15,6 +15,8 @@ CORE = "STR NONE MARK TUPLE T1 ETUP EDICT REDUCE OBJ NEWOBJ BUILD POP POP_MARK D
 
 GROUPS = [
     [G("__builtin__", "eval"), G("os", "system"), G("vp_sink", "hit"), SG("builtins", "exec"), INST("builtins", "open")],
+    # same attribute name from a benign and from a dangerous / non-stdlib module (shadowing)
+    [G("copy", "copy"), G("shutil", "copy"), G("importlib", "__import__"), SG("builtins", "__import__"), INST("shutil", "copy")],
     [G("builtins", "getattr"), G("shutil", "rmtree"), G("collections", "OrderedDict"), SG("torch.hub", "load"),
      INST("vp_sink", "hit")],
     [G("builtins", "compile"), SG("os.path", "join"), G("numpy", "dtype"), INST("subprocess", "Popen"),
@@ -26,6 +28,7 @@ GROUPS = [
 
 PREFIXES = {
     "none": b"",
+    "same-name-benign": None,  # a benign stdlib global with the same attribute name, resolved and dropped first
     "proto2": asm(("PROTO", 2)),
     "proto4": asm(("PROTO", 4)),
     "benign-data": asm("EMPTY_LIST", ("BININT1", 1), "APPEND", "POP"),
@@ -39,6 +42,13 @@ def resolve_forms(m, n):
         "STACK_GLOBAL": asm(sbu(m), sbu(n), "STACK_GLOBAL"),
         "GLOBAL+memo": asm(("GLOBAL", (m, n)), ("BINPUT", 7), "POP", ("BINGET", 7)),
         "SG+MEMOIZE": asm(sbu(m), "MEMOIZE", sbu(n), "MEMOIZE", "STACK_GLOBAL", "MEMOIZE"),
+        # memo layouts: MEMOIZE overwriting an explicitly PUT key, PUT overwriting a MEMOIZEd key, long / text keys
+        "MEMOIZE-overwrites-PUT": asm(("GLOBAL", ("collections", "OrderedDict")), ("BINPUT", 1), "POP", "NONE", "MEMOIZE", "POP",
+                                      ("GLOBAL", (m, n)), "MEMOIZE", "POP", ("BINGET", 1)),
+        "PUT-overwrites-MEMOIZE": asm(("GLOBAL", ("collections", "OrderedDict")), "MEMOIZE", "POP", ("GLOBAL", (m, n)), ("BINPUT", 0),
+                                      "POP", ("BINGET", 0)),
+        "LONG_BINPUT": asm(("GLOBAL", (m, n)), ("LONG_BINPUT", 70000), "POP", ("LONG_BINGET", 70000)),
+        "PUT-GET-text": asm(("GLOBAL", (m, n)), ("PUT", 5), "POP", ("GET", 5)),
     }
 
 
@@ -92,6 +102,12 @@ def template_programs(tier):
             if cn == "INST" and rn != "GLOBAL":
                 continue
             body = cfun(rb)
+            if pb is None:
+                from ..vocab import SHADOW
+
+                if n not in SHADOW or SHADOW[n] == m:
+                    continue
+                pb = asm(("GLOBAL", (SHADOW[n], n)), "POP")
             data = pb + dispose(body, dn) + b"."
             yield (f"{m}.{n}|{rn}|{cn}|{dn}|{pn}", data)
 
@@ -134,7 +150,7 @@ def check(tier):
         rep.add(k, v)
     rep.add("evaluations", len(items))
     rep.add("traces_validated_against_impl", total.stats.get("template_programs", 0))
-    rep.set("template_axes", {"vocabulary": len(VOCAB), "resolve_forms": 4, "call_forms": 8,
+    rep.set("template_axes", {"vocabulary": len(VOCAB), "resolve_forms": 8, "call_forms": 8,
                               "disposals": len(DISPOSALS), "prefixes": len(PREFIXES)})
     for sig, lst in total.viol.items():
         rep.merge_violations(lst)
